@@ -167,7 +167,7 @@ pub fn run(tier: &str, seed: u64) -> i32 {
     rep.rule = "real PolicyState actors behind a gated in-process PolicyClient on a paused-clock current-thread runtime; per (program with constants from none/some/all parties, leader, output-destination mask): depth-first enumeration of schedule-arrival and coordination-RPC delivery orders by stateless re-execution (complete for n=2 within the budget, bounded for n=3 in quick) plus seeded random orders that also interleave the MPC messages, seeded random orders in which the answers of coordination RPCs are delivered as separate decisions, and one order per (program, leader) in which every answer is overtaken by everything else (requests and MPC messages first). Oracle at exact quiescence: every schedule Ok, exactly one output per destination and equal to the native reference of the program, no output elsewhere, every actor stopped without panic, all permits back. distinct = (program, leader, mask, order of choices); non-trivial = the execution had at least one branching point".into();
     rep.assumptions = vec!["quiescence = runtime idle under the paused clock, no pending delivery, no extra OS thread (/proc/self/task)".into(), "MPC message deliveries do not branch in the DFS (oldest first); random mode interleaves them".into()];
     let rs = roots(tier, seed);
-    let results = shard::run_parent("C13", tier, seed, rs.len(), crate::runner::threads(), &[]);
+    let results = shard::run_parent_with_limit("C13", tier, seed, rs.len(), crate::runner::threads(), &[], 3600.0);
     let mut complete_roots = 0u64;
     let mut dfs_roots = 0u64;
     for (r, res) in rs.iter().zip(results) {
